@@ -244,11 +244,12 @@ def run(ctx):
         for da in ((True, False) if thorough else (True,)):
             ov = Overlay(ctx.scratch.path, "ov_da%d" % da, std=True, debug_assertions=da)
             gen = ""
-            hs = ["c15_enc_indices_any_row"]
+            # c15_tuple_ranges decides the tuple ranges with Kani, independently of the MIR executor (which may meet a construct it has no model for)
+            hs = ["c15_enc_indices_any_row", "c15_tuple_ranges"]
             if thorough:
                 gen = "\n".join("    #[kani::proof]\n    #[kani::unwind(32)]\n    fn c15_enc_row%03d() { enc_indices_row(%d); }" % (r, r)
                                 for r in range(477))
-                hs += ["c15_enc_row%03d" % r for r in range(477)] + ["c15_tuple_ranges"]
+                hs += ["c15_enc_row%03d" % r for r in range(477)]
             ov.append_file("systematic_constants.rs", "c15_systematic_constants.rs", {"//@ENC_ROW_HARNESSES@": gen})
             uw, desc = unwindset_for(ov, "c15_enc_indices_any_row", rules)
             rep.coverage.setdefault("kani_unwindset", desc)
@@ -318,8 +319,7 @@ def run(ctx):
     # --- D. Kani: Enc[] index generation (started first, runs in a thread next to the SMT queries)
     kani_thread.join()
     rep.coverage["exhaustive"] = True
-    rep.outside = ["equality of the printed RFC tables with the pinned copies (DESIGN §6)",
-                   "c15_tuple_ranges under Kani runs in the thorough tier only (E2 decides the same ranges in quick)"]
+    rep.outside = ["equality of the printed RFC tables with the pinned copies (DESIGN §6)"]
 
 
 def replay(path):
